@@ -1,4 +1,5 @@
 import Upd.Index
+import Upd.Route
 /-! scratch pilot: blob + upload-session handlers (blob.go, mem.go) as a state machine over a line protocol -/
 namespace Upd
 
@@ -15,6 +16,16 @@ structure Dig where
 def Dig.str (d : Dig) : String := d.alg.name ++ ":" ++ (if d.content.isEmpty then "~" else d.content)
 def H (a : Alg) (bytes : String) : Dig := ⟨a, bytes⟩
 
+/-- literal bytes of a content token: `x*40`, `~`; manifest bodies `@…` and responses `R(…)` stay symbolic -/
+def expand (tok : String) : String :=
+  if tok = "~" then ""
+  else if tok.startsWith "@" ∨ tok.startsWith "R(" then tok
+  else match tok.splitOn "*" with
+    | [x, n] => match n.toNat? with
+      | some k => String.join (List.replicate k x)
+      | none => tok
+    | _ => tok
+
 /-- outcome of digest.Parse on a request string -/
 inductive DigArg | ok (d : Dig) | bad deriving Repr
 def DigArg.parse (s : String) : DigArg :=
@@ -23,7 +34,7 @@ def DigArg.parse (s : String) : DigArg :=
   | a :: c0 :: rest =>
     let c := ":".intercalate (c0 :: rest)
     match Alg.parse? a with
-    | some alg => if c.isEmpty then .bad else .ok ⟨alg, if c = "~" then "" else c⟩
+    | some alg => if c.isEmpty then .bad else .ok ⟨alg, expand c⟩
     | none => .bad
   | _ => .bad
 
@@ -56,13 +67,27 @@ structure Body where
   len : Nat := 0
   deriving Repr
 
+/-- the configuration as far as the handlers consult it (config.Config after SetDefaults) -/
+structure Conf where
+  store : String := "mem"        -- mem | dir | memdir
+  ro : Bool := false
+  push : Bool := true
+  del : Bool := true
+  bdel : Bool := true
+  ref : Bool := true
+  mlimit : Nat := 8388608
+  rlimit : Nat := 4194304
+  upmax : Nat := 0               -- 0 = unlimited
+  deriving Repr
+
 structure State where
+  conf : Conf := {}
   repos : List Repo := []
   nextKey : Nat := 1
   names : List (Nat × Nat) := []      -- internal key ↦ public session number, assigned at first appearance
   defs : List (String × Body) := []   -- manifest bodies by content name
   resps : List (String × List Desc) := []          -- referrers responses by content name
-  rcache : List ((String × String) × List Desc) := []   -- page cache: (response digest, filter) ↦ served list
+  rcache : List ((String × String × String × String) × List (List Desc)) := []   -- page cache: (repo, subject, response digest, filter) ↦ pages
   deriving Repr
 
 def State.repo (s : State) (r : String) : Repo := (s.repos.find? (·.name = r)).getD { name := r }
@@ -92,7 +117,8 @@ def Upload.changeAlg (u : Upload) (a : Alg) : Upload :=
   if a = u.alg then u else if u.buf.length > 0 then u else { u with alg := a, hashed := "" }
 /-- Verify: returns the (possibly re-keyed) upload and whether it matched -/
 def Upload.verify (u : Upload) (d : Dig) : Upload × Bool :=
-  if u.digest = d then (u, true)
+  if u.expect.isSome ∧ u.expect ≠ some d then (u, false)      -- the session was created for another digest
+  else if u.digest = d then (u, true)
   else if u.alg ≠ d.alg then
     let u' := { u with alg := d.alg, hashed := u.buf }      -- rescan
     (u', u'.digest = d)
@@ -131,9 +157,11 @@ structure Resp where
   subj : String := ""
   filt : String := ""
   link : String := ""
+  cl : String := ""
+  crange : String := ""
 
 def Resp.line (r : Resp) : String :=
-  s!"{r.status} code={r.code} loc={r.loc} range={r.range} dcd={r.dcd} body={r.body} ct={r.ct} subj={r.subj} filt={r.filt} link={r.link}"
+  s!"{r.status} code={r.code} loc={r.loc} range={r.range} dcd={r.dcd} body={r.body} ct={r.ct} subj={r.subj} filt={r.filt} link={r.link} cl={r.cl} crange={r.crange}"
 
 def rangeHdr (size : Nat) : String := if size = 0 then "0--1" else s!"0-{size - 1}"
 
@@ -182,7 +210,7 @@ def mount (s : State) (src tgt : String) (dstr : String) : State × Option Resp 
         if ok then (s4, some { status := 201, loc := blobLoc tgt d }) else (s4, none)
 
 def uPost (s : State) (r : String) (q : Q) : State × Resp :=
-  let (s, handled) := if q.mount ≠ "" ∧ q.fromR ≠ "" then mount s q.fromR r q.mount else (s, none)
+  let (s, handled) := if q.mount ≠ "" ∧ q.fromR ≠ "" ∧ validRepo q.fromR then mount s q.fromR r q.mount else (s, none)
   match handled with
   | some resp => (s, resp)
   | none =>
@@ -257,14 +285,91 @@ def uGet (s : State) (r : String) (pub : Nat) : State × Resp :=
 def uDel (s : State) (r : String) (pub : Nat) : State × Resp :=
   withSession s r pub fun s rp u => (s.setRepo (rp.dropUpload u.key), { status := 202 })
 
-def bGet (s : State) (r : String) (arg : String) (head : Bool) : State × Resp :=
+/-! ### sizes: marshalled JSON lengths (inputs of referrers paging and of Content-Length) -/
+
+/-- length of the real media type string behind a token (anything else is sent literally) -/
+def mtLen (tok : String) : Nat :=
+  match tok with
+  | "ocim" => 42 | "ocii" => 39 | "dockm" => 52 | "dockl" => 57 | "cfg" => 40 | "dcfg" => 46
+  | "empty" => 33 | "lay" => 38 | "other" => 19 | "octet" => 24 | "json" => 16
+  | t => t.length
+
+/-- length of a digest string, by the algorithm prefix of its token -/
+def digLen (tok : String) : Nat :=
+  if tok.startsWith "sha256:" then 71 else if tok.startsWith "sha384:" then 103 else if tok.startsWith "sha512:" then 135 else tok.length
+
+def digits (n : Nat) : Nat := (toString n).length
+
+/-- `{"k":"v",…}` for the canonical annotation string `k=v;k2=v2` -/
+def annJsonLen (rann : String) : Nat :=
+  let pairs := (rann.splitOn ";").filter (· ≠ "")
+  2 + (pairs.map fun p => p.length + 4).sum + (pairs.length - 1)
+
+/-- marshalled length of a descriptor of a referrers response: mediaType, digest, size, annotations?, artifactType? -/
+def descLen (d : Desc) : Nat :=
+  14 + mtLen d.mt + 12 + digLen d.dig + 9 + digits d.size
+    + (if d.rann ≠ "" then 15 + annJsonLen d.rann else 0)
+    + (if d.atype ≠ "" then 17 + mtLen d.atype + 1 else 0) + 1
+
+/-- marshalled length of a referrers response (an OCI index with only schemaVersion, mediaType, manifests) -/
+def respSize (ds : List Desc) : Nat := 88 + (ds.map descLen).sum + (ds.length - 1)
+
+/-- name of a content on the wire protocol -/
+def cname (c : String) : String := if c = "" then "~" else c
+
+def contentLen (s : State) (c : String) : Nat :=
+  if c.startsWith "@" then
+    match s.defs.find? (·.1 = c) with
+    | some (_, b) => b.len
+    | none => c.length
+  else if c.startsWith "R(" then
+    match s.resps.find? (·.1 = c) with
+    | some (_, ds) => respSize ds
+    | none => c.length
+  else c.utf8ByteSize
+
+/-! ### byte ranges (`http.ServeContent`, single range) -/
+inductive RangeRes | full | part (lo hi : Nat) | unsat
+  deriving Repr, DecidableEq
+
+/-- `parseRange` of net/http for the forms `a-b`, `a-`, `-n` -/
+def parseRange (spec : String) (size : Nat) : RangeRes :=
+  if spec = "" then .full else
+  match spec.splitOn "-" with
+  | [a, b] =>
+    if a = "" then
+      match b.toNat? with
+      | none => .unsat
+      | some n => let n := min n size; if size = 0 then .part 0 0 else .part (size - n) (size - 1)
+    else match a.toNat? with
+      | none => .unsat
+      | some lo =>
+        if lo ≥ size then (if size = 0 then .full else .unsat)
+        else if b = "" then .part lo (size - 1)
+        else match b.toNat? with
+          | none => .unsat
+          | some hi => if hi < lo then .unsat else .part lo (min hi (size - 1))
+  | _ => .unsat
+
+/-- serve a content with status, Content-Length, Content-Range and body token -/
+def serve (s : State) (content : String) (rng : String) (head : Bool) (dcd ct : String) : Resp :=
+  let size := contentLen s content
+  match parseRange rng size with
+  | .full => { status := 200, dcd := dcd, ct := ct, cl := toString size, body := if head then "-" else "=" ++ cname content }
+  | .unsat => { status := 416, dcd := dcd }
+  | .part lo hi =>
+    if size = 0 then { status := 206, dcd := dcd, ct := ct, cl := "0", crange := "bytes0--1/0", body := if head then "-" else "=" ++ cname content ++ "[0--1]" }
+    else { status := 206, dcd := dcd, ct := ct, cl := toString (hi - lo + 1), crange := s!"bytes{lo}-{hi}/{size}",
+           body := if head then "-" else "=" ++ cname content ++ s!"[{lo}-{hi}]" }
+
+def bGet (s : State) (r : String) (arg : String) (head : Bool) (rng : String := "") : State × Resp :=
   match DigArg.parse arg with
   | .bad => (s, { status := 400, code := "DIGEST_INVALID" })
   | .ok d =>
     let s := s.setRepo (s.repo r)
     match (s.repo r).blob d with
     | none => (s, { status := 404, code := "BLOB_UNKNOWN" })
-    | some b => (s, { status := 200, dcd := d.str, body := if head then s!"len{b.length}" else "=" ++ b })
+    | some b => (s, serve s b rng head d.str "octet")
 
 def bDel (s : State) (r : String) (arg : String) : State × Resp :=
   match DigArg.parse arg with
